@@ -106,11 +106,11 @@ class C14(Plugin):
                 back = curies.load_extended_prefix_map(path)
                 return case, [qprops.v_record(r) for r in sorted(back.records, key=lambda r: r.prefix)]
             if fmt == 1:
-                curies.write_jsonld_context(c, path, include_synonyms=bool(syn), expand=bool(ex))
+                curies.write_jsonld_context(c, path, **qprops.flags(include_synonyms=bool(syn), expand=bool(ex)))
                 back = curies.load_jsonld_context(path, strict=not syn)
                 return case, qprops.v_dict(back.prefix_map)
             if fmt == 2:
-                curies.write_shacl(c, path, include_synonyms=bool(syn))
+                curies.write_shacl(c, path, **qprops.flags(include_synonyms=bool(syn)))
                 back = curies.load_shacl(path, strict=not syn)
                 canon = set(c.bimap)
                 return case, [qprops.v_dict(back.prefix_map), qprops.v_dict({k: v for k, v in back.pattern_map.items() if k in canon})]
